@@ -38,9 +38,13 @@ def J (R : Nat) (cyc : List Nat) (w : World) : Prop :=
   ∀ y, y ∉ cyc → V0 R w y → isCheckedR (getRec w R y) R = false → (getRec w R y).isGenerated = true →
     (getRec w R y).isOverride = false → ∀ row ∈ w.deps, row.target = y → GoodRow R cyc w row
 
-/-- Overridden files are in step with their record. -/
+/-- An overridden file that exists either failed in this run, or carries no failure mark and is in step with
+its record or still recorded as generated (so that `start_self` will record its new stamp when it visits it). -/
 def OV (R : Nat) (w : World) : Prop :=
-  ∀ z, (getRec w R z).isOverride = true → (getRec w R z).failed = none ∧ (getRec w R z).stamp = some (readStamp w z)
+  ∀ z, (getRec w R z).isOverride = true → existsF w z = true →
+    isFailedR (getRec w R z) R = true ∨
+    ((getRec w R z).failed = none ∧
+      ((getRec w R z).stamp = some (readStamp w z) ∨ (getRec w R z).isGenerated = true))
 
 /-- A copy `s` of the record of `z` taken earlier in the same dirtiness check. -/
 structure SnapRel (R : Nat) (cyc : List Nat) (w : World) (z : Nat) (s : Rec) : Prop where
